@@ -125,6 +125,8 @@ Lemma rs_eqv_refl a : rs_eqv a a.
 Proof. split; reflexivity. Qed.
 Lemma rs_eqv_trans a b c : rs_eqv a b -> rs_eqv b c -> rs_eqv a c.
 Proof. intros [H1 H2] [H3 H4]. split; intros; [now rewrite H1|now rewrite H2]. Qed.
+Lemma rs_eqv_sym a b : rs_eqv a b -> rs_eqv b a.
+Proof. intros [H1 H2]. split; intros; [now rewrite H1|now rewrite H2]. Qed.
 
 Lemma cell_upd t t' f (rs : rrsets) :
   cell t' (al_upd t f [] rs) = if t' =? t then f (cell t rs) else cell t' rs.
@@ -231,6 +233,8 @@ Lemma n_eqv_refl a : n_eqv a a.
 Proof. split; [apply rs_eqv_refl|reflexivity]. Qed.
 Lemma n_eqv_trans a b c : n_eqv a b -> n_eqv b c -> n_eqv a c.
 Proof. intros [H1 H2] [H3 H4]. split; [eapply rs_eqv_trans; eauto|congruence]. Qed.
+Lemma n_eqv_sym a b : n_eqv a b -> n_eqv b a.
+Proof. intros [H1 H2]. split; [now apply rs_eqv_sym|congruence]. Qed.
 
 (* F acts on the node's cells through w-local functions only *)
 Definition nl (w : N) (F : znode -> znode) : Prop :=
@@ -317,94 +321,108 @@ Qed.
 Definition ns_q (c w : N) (ns : list (N * znode)) : Prop := Forall (fun p => n_q c w (snd p)) ns.
 Definition z_q (c w : N) (s : zstate) : Prop := rs_q c w (z_apex s) /\ ns_q c w (z_nodes s).
 
-Definition ns_eqv (a b : list (N * znode)) : Prop :=
-  Forall2 (fun p q => fst p = fst q /\ n_eqv (snd p) (snd q)) a b.
-Definition z_eqv (a b : zstate) : Prop := rs_eqv (z_apex a) (z_apex b) /\ ns_eqv (z_nodes a) (z_nodes b).
+(* a node all of whose cells are empty: what rollback leaves of a node that the
+   rolled-back version created *)
+Definition n_blank (n : znode) : Prop := n_eqv n empty_node.
 
-Lemma ns_eqv_refl a : ns_eqv a a.
-Proof. induction a; constructor; [split; [reflexivity|apply n_eqv_refl]|assumption]. Qed.
-Lemma ns_eqv_trans a b c : ns_eqv a b -> ns_eqv b c -> ns_eqv a c.
+(* `b` is `a` with equivalent nodes, followed by blank nodes *)
+Inductive ns_le : list (N * znode) -> list (N * znode) -> Prop :=
+| ns_le_nil extra : Forall (fun p => n_blank (snd p)) extra -> ns_le [] extra
+| ns_le_cons k n n' a b : n_eqv n n' -> ns_le a b -> ns_le ((k, n) :: a) ((k, n') :: b).
+
+Definition z_eqv (a b : zstate) : Prop := rs_eqv (z_apex a) (z_apex b) /\ ns_le (z_nodes a) (z_nodes b).
+
+Lemma ns_le_refl a : ns_le a a.
+Proof. induction a as [|[k n] tl IH]; constructor; [constructor|apply n_eqv_refl|exact IH]. Qed.
+
+Lemma blank_le b c : Forall (fun p => n_blank (snd p)) b -> ns_le b c -> Forall (fun p => n_blank (snd p)) c.
 Proof.
-  intros H. revert c. induction H as [|p q a b [Hk Hn] _ IH]; intros c Hc; inversion Hc as [|? r ? c' [Hk' Hn'] Hc']; subst.
-  - constructor.
-  - constructor; [split; [congruence|eapply n_eqv_trans; eauto]|now apply IH].
+  intros Hb H. induction H as [extra He|k n n' a b Hn _ IH]; [exact He|].
+  inversion Hb as [|? ? Hn0 Htl]; subst. cbn [snd] in Hn0. constructor; [|now apply IH].
+  cbn [snd]. unfold n_blank in *. eapply n_eqv_trans; [apply n_eqv_sym; exact Hn|exact Hn0].
 Qed.
+
+Lemma ns_le_trans a b c : ns_le a b -> ns_le b c -> ns_le a c.
+Proof.
+  intros H. revert c. induction H as [extra He|k n n' a b Hn _ IH]; intros c Hc.
+  - constructor. now apply (blank_le extra).
+  - inversion Hc as [|? ? n'' ? c' Hn' Hc']; subst. constructor; [eapply n_eqv_trans; eauto|now apply IH].
+Qed.
+
 Lemma z_eqv_refl a : z_eqv a a.
-Proof. split; [apply rs_eqv_refl|apply ns_eqv_refl]. Qed.
+Proof. split; [apply rs_eqv_refl|apply ns_le_refl]. Qed.
 Lemma z_eqv_trans a b c : z_eqv a b -> z_eqv b c -> z_eqv a c.
-Proof. intros [H1 H2] [H3 H4]. split; [eapply rs_eqv_trans; eauto|eapply ns_eqv_trans; eauto]. Qed.
+Proof. intros [H1 H2] [H3 H4]. split; [eapply rs_eqv_trans; eauto|eapply ns_le_trans; eauto]. Qed.
 
 Lemma z_rollback_eq s w :
   z_rollback s w = mkz (z_cur s) (rs_rollback (z_apex s) w) (al_map (fun n => n_rollback n w) (z_nodes s)) (z_writer s).
 Proof. reflexivity. Qed.
 
-(* updating an existing child in place *)
-Lemma child_do_present c w ns name F :
-  c < w -> nl w F -> ns_q c w ns -> node_exists ns name = true ->
+Lemma n_q_empty c w : n_q c w empty_node.
+Proof. split; constructor. Qed.
+
+(* update_child + F: in place if the child exists, otherwise a new node that the
+   rollback of w turns into a blank one *)
+Lemma child_do_le c w ns name F :
+  c < w -> nl w F -> ns_q c w ns ->
   ns_q c w (child_do ns name w F) /\
-  ns_eqv (al_map (fun n => n_rollback n w) (child_do ns name w F)) (al_map (fun n => n_rollback n w) ns).
+  ns_le (al_map (fun n => n_rollback n w) ns) (al_map (fun n => n_rollback n w) (child_do ns name w F)).
 Proof.
-  intros Hc HF H Hex. unfold child_do, node_exists in *.
-  induction H as [|[k n] tl Hn Htl IH]; cbn [al_get] in Hex; [discriminate|].
-  cbn [al_upd]. destruct (k =? name).
-  - destruct (HF c n Hc Hn) as [H1 H2]. split.
-    + constructor; assumption.
-    + cbn [al_map map fst snd]. constructor; [split; [reflexivity|exact H2]|apply ns_eqv_refl].
-  - destruct (IH Hex) as [H1 H2]. split.
-    + constructor; assumption.
-    + cbn [al_map map fst snd]. constructor; [split; [reflexivity|apply n_eqv_refl]|exact H2].
+  intros Hc HF H. unfold child_do. cbv [update_child_creates_node].
+  induction H as [|[k n] tl Hn Htl IH]; cbn [al_upd].
+  - destruct (nl_comp w _ _ (nl_make_regular w) HF c empty_node Hc (n_q_empty c w)) as [H1 H2].
+    split; [constructor; [exact H1|constructor]|].
+    cbn [al_map map fst snd]. constructor. constructor; [|constructor]. exact H2.
+  - destruct (k =? name).
+    + destruct (HF c n Hc Hn) as [H1 H2]. split.
+      * constructor; assumption.
+      * cbn [al_map map fst snd]. constructor; [apply n_eqv_sym; exact H2|apply ns_le_refl].
+    + destruct IH as [H1 H2]. split.
+      * constructor; assumption.
+      * cbn [al_map map fst snd]. constructor; [apply n_eqv_refl|exact H2].
 Qed.
 
 Lemma ns_map_nl c w F ns :
   c < w -> nl w F -> ns_q c w ns ->
   ns_q c w (al_map F ns) /\
-  ns_eqv (al_map (fun n => n_rollback n w) (al_map F ns)) (al_map (fun n => n_rollback n w) ns).
+  ns_le (al_map (fun n => n_rollback n w) ns) (al_map (fun n => n_rollback n w) (al_map F ns)).
 Proof.
   intros Hc HF H. induction H as [|[k n] tl Hn _ [IH1 IH2]]; cbn [al_map map fst snd].
-  - split; constructor.
-  - destruct (HF c n Hc Hn) as [H1 H2]. split; constructor; auto.
+  - split; [constructor|apply ns_le_refl].
+  - destruct (HF c n Hc Hn) as [H1 H2]. split; [constructor; auto|].
+    constructor; [apply n_eqv_sym; exact H2|exact IH2].
 Qed.
-
-(* does the data operation create a node? *)
-Definition touches (e : event) : option N :=
-  match e with
-  | EUpdate n _ _ | ERemove n _ | ETouch n | ERemoveAllAt n | ECname n _ | ERegular n => if n =? 0 then None else Some n
-  | _ => None
-  end.
-Definition creates (s : zstate) (e : event) : bool :=
-  match touches e with Some n => negb (node_exists (z_nodes s) n) | None => false end.
 
 Lemma set_nodes_q c w s ns : rs_q c w (z_apex s) -> ns_q c w ns -> z_q c w (set_nodes s ns).
 Proof. intros; split; assumption. Qed.
 
-(* THE step lemma: a data operation of the writer of version w that creates no
-   node leaves the rolled-back zone unchanged (up to empty cells) *)
+(* THE step lemma: whatever data operation the writer of version w performs
+   (including update_child for a name that has no node yet), the rolled-back
+   zone stays the same up to empty cells and blank nodes *)
 Lemma data_op_base c w s e :
-  c < w -> z_q c w s -> creates s e = false ->
-  z_q c w (data_op s w e) /\ z_eqv (z_rollback (data_op s w e) w) (z_rollback s w).
+  c < w -> z_q c w s ->
+  z_q c w (data_op s w e) /\ z_eqv (z_rollback s w) (z_rollback (data_op s w e) w).
 Proof.
-  intros Hc [Ha Hn] Hcr.
-  assert (Hchild : forall name F, nl w F -> node_exists (z_nodes s) name = true ->
+  intros Hc [Ha Hn].
+  assert (Hchild : forall name F, nl w F ->
             z_q c w (set_nodes s (child_do (z_nodes s) name w F)) /\
-            z_eqv (z_rollback (set_nodes s (child_do (z_nodes s) name w F)) w) (z_rollback s w)).
-  { intros name F HF Hex. destruct (child_do_present c w _ name F Hc HF Hn Hex) as [H1 H2].
+            z_eqv (z_rollback s w) (z_rollback (set_nodes s (child_do (z_nodes s) name w F)) w)).
+  { intros name F HF. destruct (child_do_le c w _ name F Hc HF Hn) as [H1 H2].
     split; [now apply set_nodes_q|]. rewrite !z_rollback_eq. split; cbn [z_apex z_nodes set_nodes]; [apply rs_eqv_refl|exact H2]. }
   assert (Hsame : z_q c w s /\ z_eqv (z_rollback s w) (z_rollback s w)) by (split; [split; assumption|apply z_eqv_refl]).
-  unfold creates, touches in Hcr.
   destruct e; cbn [data_op]; try exact Hsame.
   - (* EUpdate *)
     destruct (N.eqb_spec name 0) as [->|Hne].
     + destruct (rs_update_wl c w t rr _ Hc Ha) as [H1 H2].
-      split; [split; assumption|]. rewrite !z_rollback_eq. split; cbn [z_apex z_nodes set_apex]; [exact H2|apply ns_eqv_refl].
-    + apply Hchild; [apply nl_update_rrset|]. now destruct (node_exists (z_nodes s) name).
+      split; [split; assumption|]. rewrite !z_rollback_eq. split; cbn [z_apex z_nodes set_apex]; [apply rs_eqv_sym; exact H2|apply ns_le_refl].
+    + apply Hchild. apply nl_update_rrset.
   - (* ERemove *)
     destruct (N.eqb_spec name 0) as [->|Hne].
     + destruct (rs_remove_wl c w t _ Hc Ha) as [H1 H2].
-      split; [split; assumption|]. rewrite !z_rollback_eq. split; cbn [z_apex z_nodes set_apex]; [exact H2|apply ns_eqv_refl].
-    + apply Hchild; [apply nl_remove_rrset|]. now destruct (node_exists (z_nodes s) name).
+      split; [split; assumption|]. rewrite !z_rollback_eq. split; cbn [z_apex z_nodes set_apex]; [apply rs_eqv_sym; exact H2|apply ns_le_refl].
+    + apply Hchild. apply nl_remove_rrset.
   - (* ETouch *)
-    destruct (N.eqb_spec name 0) as [->|Hne]; [exact Hsame|].
-    apply Hchild; [apply nl_id|]. now destruct (node_exists (z_nodes s) name).
+    destruct (N.eqb_spec name 0) as [->|Hne]; [exact Hsame|]. apply Hchild. apply nl_id.
   - (* ERemoveAll *)
     unfold z_remove_all. cbv [apex_remove_all_rrsets apex_remove_all_children].
     destruct (ns_map_nl c w (fun n => n_remove_all n w) _ Hc (nl_remove_all w) Hn) as [H1 H2].
@@ -413,14 +431,11 @@ Proof.
     + rewrite !z_rollback_eq. split; cbn [z_apex z_nodes]; [|exact H2].
       unfold rs_remove_all. rewrite (rs_all_base c); auto using wl_remove. apply rs_eqv_refl.
   - (* ERemoveAllAt *)
-    destruct (N.eqb_spec name 0) as [->|Hne]; [exact Hsame|].
-    apply Hchild; [apply nl_remove_all|]. now destruct (node_exists (z_nodes s) name).
+    destruct (N.eqb_spec name 0) as [->|Hne]; [exact Hsame|]. apply Hchild. apply nl_remove_all.
   - (* ECname *)
-    destruct (N.eqb_spec name 0) as [->|Hne]; [exact Hsame|].
-    apply Hchild; [apply nl_make_cname|]. now destruct (node_exists (z_nodes s) name).
+    destruct (N.eqb_spec name 0) as [->|Hne]; [exact Hsame|]. apply Hchild. apply nl_make_cname.
   - (* ERegular *)
-    destruct (N.eqb_spec name 0) as [->|Hne]; [exact Hsame|].
-    apply Hchild; [apply nl_make_regular|]. now destruct (node_exists (z_nodes s) name).
+    destruct (N.eqb_spec name 0) as [->|Hne]; [exact Hsame|]. apply Hchild. apply nl_make_regular.
 Qed.
 
 (* ---------------------------------------------------------------- observations respect z_eqv *)
@@ -428,49 +443,112 @@ Qed.
 Lemma rs_get_eqv a b t v : rs_eqv a b -> rs_get a t v = rs_get b t v.
 Proof. intros [H _]. unfold rs_get. now rewrite H. Qed.
 
-Lemma node_here_eqv a b v t soa : n_eqv a b -> node_here a v t soa = node_here b v t soa.
+Lemma is_empty_walk rs v :
+  rs_is_empty rs v = match walk_rrsets 0 rs v with [] => true | _ => false end.
 Proof.
-  intros [Hr Hs]. unfold node_here, n_with_special. rewrite Hs.
-  destruct (v_get (n_special b) v) as [[[id|]|]|]; try reflexivity; now rewrite (rs_get_eqv _ _ t v Hr).
+  induction rs as [|[k d] tl IH]; [reflexivity|].
+  rewrite walk_rrsets_cons. cbn [rs_is_empty forallb snd]. destruct (v_get d v); [reflexivity|exact IH].
 Qed.
 
-Lemma al_get_eqv k a b :
-  ns_eqv a b ->
+Lemma is_empty_eqv a b v : rs_eqv a b -> rs_is_empty a v = rs_is_empty b v.
+Proof. intros [_ H]. now rewrite !is_empty_walk, H. Qed.
+
+Lemma n_exists_eqv a b v : n_eqv a b -> n_exists a v = n_exists b v.
+Proof.
+  intros [Hr Hs]. unfold n_exists, n_with_special. now rewrite (is_empty_eqv _ _ v Hr), Hs.
+Qed.
+
+Lemma n_exists_blank n v : n_blank n -> n_exists n v = false.
+Proof. intros H. now rewrite (n_exists_eqv _ _ v H). Qed.
+
+Lemma node_here_eqv a b v t soa : n_eqv a b -> node_here a v t soa = node_here b v t soa.
+Proof.
+  intros [Hr Hs]. unfold node_here, n_with_special. rewrite Hs. now rewrite (rs_get_eqv _ _ t v Hr).
+Qed.
+
+Lemma al_get_in {A} k (l : list (N * A)) y : al_get k l = Some y -> exists k', In (k', y) l.
+Proof.
+  induction l as [|[k0 a] tl IH]; cbn [al_get]; [discriminate|].
+  destruct (k0 =? k); [intros E; inversion E; subst; eexists; now left|].
+  intros E. destruct (IH E) as [k' Hin]. eexists; right; eauto.
+Qed.
+
+Lemma al_get_le k a b :
+  ns_le a b ->
   match al_get k a, al_get k b with
+  | Some x, Some y => n_eqv x y
+  | None, None => True
+  | None, Some y => n_blank y
+  | Some _, None => False
+  end.
+Proof.
+  intros H. induction H as [extra He|k0 n n' a b Hn _ IH]; cbn [al_get].
+  - destruct (al_get k extra) as [y|] eqn:E; [|exact I].
+    destruct (al_get_in _ _ _ E) as [k' Hin]. rewrite Forall_forall in He. exact (He _ Hin).
+  - destruct (k0 =? k); [exact Hn|exact IH].
+Qed.
+
+Lemma child_at_le k v a b :
+  ns_le a b ->
+  match child_at a k v, child_at b k v with
   | Some x, Some y => n_eqv x y
   | None, None => True
   | _, _ => False
   end.
 Proof.
-  intros H. induction H as [|[k1 n1] [k2 n2] a b [Hk Hn] _ IH]; cbn [al_get]; [exact I|].
-  cbn [fst snd] in *. subst k2. destruct (k1 =? k); [exact Hn|exact IH].
+  intros H. pose proof (al_get_le k a b H) as Hg. unfold child_at. cbv [query_follows_only_existing_children].
+  destruct (al_get k a) as [x|], (al_get k b) as [y|]; try contradiction.
+  - rewrite (n_exists_eqv _ _ v Hg). destruct (n_exists y v); [exact Hg|exact I].
+  - now rewrite (n_exists_blank y v Hg).
+  - exact I.
 Qed.
 
 Lemma query_eqv a b v name t : z_eqv a b -> query a v name t = query b v name t.
 Proof.
   intros [Ha Hn]. unfold query. rewrite (rs_get_eqv _ _ 6 v Ha).
   destruct (name =? 0); [now rewrite (rs_get_eqv _ _ t v Ha)|].
-  pose proof (al_get_eqv name _ _ Hn) as H1. pose proof (al_get_eqv 1 _ _ Hn) as H2.
-  destruct (al_get name (z_nodes a)), (al_get name (z_nodes b)); try contradiction.
+  pose proof (child_at_le name v _ _ Hn) as H1. pose proof (child_at_le 1 v _ _ Hn) as H2.
+  destruct (child_at (z_nodes a) name v), (child_at (z_nodes b) name v); try contradiction.
   - now apply node_here_eqv.
-  - destruct (al_get 1 (z_nodes a)), (al_get 1 (z_nodes b)); try contradiction; [now apply node_here_eqv|reflexivity].
+  - destruct (child_at (z_nodes a) 1 v), (child_at (z_nodes b) 1 v); try contradiction; [now apply node_here_eqv|reflexivity].
 Qed.
+
+Lemma walk_node_eqv k n n' v : n_eqv n n' -> walk_node (k, n) v = walk_node (k, n') v.
+Proof. intros [[_ Hw] Hs]. unfold walk_node, n_with_special. cbn [fst snd]. now rewrite Hw, Hs. Qed.
 
 Lemma walk_eqv a b v : z_eqv a b -> walk a v = walk b v.
 Proof.
   intros [[_ Ha] Hn]. unfold walk. rewrite Ha. f_equal.
-  induction Hn as [|[k1 n1] [k2 n2] x y [Hk [[_ Hw] Hs]] _ IH]; [reflexivity|].
-  cbn [flat_map]. rewrite IH. f_equal. cbn [fst snd] in *. subst k2.
-  unfold walk_node, n_with_special. cbn [fst snd]. now rewrite Hw, Hs.
+  induction Hn as [extra He|k n n' x y Hn _ IH].
+  - cbn [flat_map]. induction He as [|[k n] tl Hb _ IH]; [reflexivity|].
+    cbn [flat_map]. rewrite <- IH, app_nil_r. cbn [snd] in Hb.
+    now rewrite (walk_node_eqv k n empty_node v Hb).
+  - cbn [flat_map]. now rewrite IH, (walk_node_eqv k n n' v Hn).
 Qed.
 
 (* a reader below w reads through the base *)
+Lemma is_empty_base w rs r : ver_le w r = false -> rs_is_empty (rs_rollback rs w) r = rs_is_empty rs r.
+Proof. intros Hr. now rewrite !is_empty_walk, (walk_rrsets_base w 0 rs r Hr). Qed.
+
+Lemma n_exists_base w n r : ver_le w r = false -> n_exists (n_rollback n w) r = n_exists n r.
+Proof.
+  intros Hr. unfold n_exists, n_with_special. rewrite n_rollback_eq. cbn [n_rrsets n_special].
+  now rewrite (is_empty_base w _ r Hr), (get_base w _ r Hr).
+Qed.
+
 Lemma node_here_base w n r t soa :
   ver_le w r = false -> node_here (n_rollback n w) r t soa = node_here n r t soa.
 Proof.
   intros Hr. unfold node_here, n_with_special. rewrite n_rollback_eq. cbn [n_rrsets n_special].
-  rewrite (get_base w _ r Hr). destruct (v_get (n_special n) r) as [[[id|]|]|]; try reflexivity;
-    now rewrite (rs_get_base w _ t r Hr).
+  now rewrite (get_base w _ r Hr), (rs_get_base w _ t r Hr).
+Qed.
+
+Lemma child_at_base w ns k r :
+  ver_le w r = false ->
+  child_at (al_map (fun n => n_rollback n w) ns) k r = option_map (fun n => n_rollback n w) (child_at ns k r).
+Proof.
+  intros Hr. unfold child_at. rewrite al_get_map. destruct (al_get k ns) as [n|]; cbn [option_map]; [|reflexivity].
+  rewrite (n_exists_base w n r Hr). cbv [query_follows_only_existing_children]. destruct (n_exists n r); reflexivity.
 Qed.
 
 Lemma query_base w s r name t :
@@ -478,8 +556,9 @@ Lemma query_base w s r name t :
 Proof.
   intros Hr. unfold query. rewrite z_rollback_eq. cbn [z_apex z_nodes].
   rewrite !(rs_get_base w _ _ r Hr). destruct (name =? 0); [reflexivity|].
-  rewrite !al_get_map. destruct (al_get name (z_nodes s)); cbn [option_map]; [now apply node_here_base|].
-  destruct (al_get 1 (z_nodes s)); cbn [option_map]; [now apply node_here_base|reflexivity].
+  rewrite !(child_at_base w _ _ r Hr).
+  destruct (child_at (z_nodes s) name r); cbn [option_map]; [now apply node_here_base|].
+  destruct (child_at (z_nodes s) 1 r); cbn [option_map]; [now apply node_here_base|reflexivity].
 Qed.
 
 Lemma walk_base w s r : ver_le w r = false -> walk (z_rollback s w) r = walk s r.
